@@ -281,7 +281,7 @@ def run(R):
     R.count("former-generated-witness:" + judge_levels(R, wcase, winfo, wlv, "average", None if wout[0] == "ok" else wout))
 
     # ---------------------------------------------------------- (a) hand-made transitions
-    for _ in range(1500 if quick else 22000):
+    for _ in range(1300 if quick else 22000):
         os3, ns3, oc3, nc3 = gen_handmade(rng)
         method = rng.choice(["average", "majority", "stride"])
         dtype = rng.choice(["uint8", "uint8", "uint16", "uint32"] + ([] if method == "average" else ["uint64"]))
@@ -301,7 +301,7 @@ def run(R):
     _shared_downscaler_stream(R, rng, quick)
 
     # ---------------------------------------------------------- (b) generator outputs, whole pyramid in memory
-    for k in range(220 if quick else 3500):
+    for k in range(190 if quick else 3500):
         size, res, target, info = gen_pyramid_input(rng, 2500 if k % 3 else 9000)
         method = rng.choice(["average", "majority", "stride"])
         dtype = rng.choice(["uint8", "uint16", "uint32"] + ([] if method == "average" else ["uint64"]))
